@@ -1,6 +1,7 @@
 package main
 
 import (
+	"sync"
 	"bytes"
 	"context"
 	"encoding/json"
@@ -59,6 +60,40 @@ func clientOps(rep *Report, f *icl.File, variant int) {
 		if _, _, err := api.GetICLFileByID(ctx, create.ID, nil); err != nil {
 			rep.violate(Violation{Key: "C20:client-op:get:by-submitted-id", What: "GetICLFileByID with the ID submitted at creation fails: " + err.Error(), Replay: map[string]any{"id": create.ID}})
 		}
+	}
+	// several clients creating DIFFERENT files through the v2 operation at the same time: each gets its own file back
+	if variant%2 == 0 {
+		var wg sync.WaitGroup
+		var vmu sync.Mutex
+		start := make(chan struct{})
+		for w := 0; w < 16; w++ {
+			wg.Add(1)
+			go func(w int) {
+				defer wg.Done()
+				mine := create
+				mine.ID = ""
+				mine.FileHeader.ImmediateOriginName = fmt.Sprintf("CLIENT %d", w)
+				mine.FileHeader.UserField = strings.Repeat(string(rune('A'+w)), 1+w%4) // answers of different lengths
+				<-start
+				for k := 0; k < 30; k++ {
+					got, resp, err := api.CreateICLFileV2(ctx, mine)
+					vmu.Lock()
+					rep.Evaluations++
+					switch {
+					case resp != nil && resp.StatusCode < 300 && err != nil:
+						rep.violate(Violation{Key: "C20:client-op:create-v2:concurrent:response-not-decoded", What: fmt.Sprintf("of several clients calling CreateICLFileV2 at once, one was answered %d with a body the client cannot decode: %v", resp.StatusCode, err),
+							Replay: map[string]any{"client": w, "status": resp.StatusCode, "error": err.Error()}})
+					case err == nil && got.FileHeader.ImmediateOriginName != mine.FileHeader.ImmediateOriginName:
+						rep.violate(Violation{Key: "C20:client-op:create-v2:concurrent:someone-elses-file", What: fmt.Sprintf("of several clients calling CreateICLFileV2 at once, client %d got back a file whose origin name is %q, it submitted %q", w, got.FileHeader.ImmediateOriginName, mine.FileHeader.ImmediateOriginName),
+							Replay: map[string]any{"client": w, "submitted": mine.FileHeader.ImmediateOriginName, "answered": got.FileHeader.ImmediateOriginName}})
+					}
+					vmu.Unlock()
+				}
+			}(w)
+		}
+		close(start)
+		wg.Wait()
+		rep.count("client-op:create-v2:concurrent")
 	}
 	// the v2 create operation: whatever the server answers with a 2xx status the client must be able to decode
 	{
